@@ -140,7 +140,14 @@ def _get_ast_node_variables(node: ast.AST, aliases: Mapping) -> list[Variable]:
         if not isinstance(node, (ast.Call, ast.Attribute, ast.Name)):
             todo.extend((child, bound) for child in ast.iter_child_nodes(node))
             continue
-        name = _get_ast_node_name(node)
+        try:
+            name = _get_ast_node_name(node)
+        except ValueError:
+            # Attribute access on / call of something other than a (dotted)
+            # name, e.g. `(a + b).abs()` or `fs[0](a)`: there is no name to
+            # report for this node itself.
+            todo.extend((child, bound) for child in ast.iter_child_nodes(node))
+            continue
         is_bound = name.split(".", 1)[0] in bound
         name = aliases.get(name, name)
         if isinstance(node, ast.Call):
